@@ -11,6 +11,16 @@ CLAIMED = {
          "Trusted: Coq kernel, extraction (ExtrOcamlBasic), the hand-written model prims/Lock.v being faithful to _asyncio.py:1878-1959 (checked, not proved, by the correspondence harness), CPython asyncio semantics as modelled (Task.cancel/_must_cancel/future callbacks).",
          "Rocq/Coq proof of an inductive invariant over all op sequences + model/implementation correspondence check",
          "DESIGN.md §6 C09"),
+
+ "C10": ("Machine-checked proof (Coq) over executable LTS models of anyio Semaphore and CapacityLimiter (prims/Sem.v, prims/Limiter.v): inductive invariants for EVERY op sequence (acquire/acquire_nowait/acquire_on_behalf_of/release/total_tokens assignments incl. lowering below borrowed, 0, inf/resume/native cancel at any cycle) give permit conservation, grant-only-if-free (direct, woken waiter, total_tokens setter), FIFO, cancel-no-leak incl. the hand-off race, counts-true, rejection of invalid releases/double borrow, quiescence (32 theorems; pre-fix setter and pre-fix foreign-borrower handler kept as refuted witnesses). Tied to the code on every run by differential execution on a schedule-controlled loop + vm_compute sample + independent monitors + exhaustive small scope.",
+         "Trusted: Coq kernel, extraction, hand-written models faithful to _asyncio.py:1962-2170 (checked by correspondence, not proved), asyncio Task/Future/Event semantics as modelled. Input-domain hypotheses O1/O2 (two concurrent waiters for the same borrower; release_on_behalf_of before the acquire returned) are explicit in the theorems that need them.",
+         "Rocq/Coq invariant proofs over all op sequences + model/implementation correspondence check", "DESIGN.md §6 C10"),
+ "C18": ("Proof, partial (boundary property). Machine-checked proof (Coq) over executable models of AnyIO's side of the socket boundary: StreamProtocol+SocketStream (boundary/SockProto.v: read queue, read/write events, EOF/exception/closed flags, resource guards, reading paused unless a receive waits) for EVERY sequence of API calls, scheduler steps and transport callbacks, and the raw-socket loops of UNIXSocketStream (boundary/UnixLoop.v) for every kernel answer script: receive-prefix/completeness at EOF, chunk bounds with push-back at the front, EOF/closed error mapping, guards reject concurrent use and are released on every path, send returns only with the write gate open, no lost wake-up, UNIX send loop hands the item to the kernel completely and in order (25 theorems). Tied to the code by correspondence of the REAL classes over fake transports/raw sockets on a stepped loop, plus end-to-end monitors on real TCP/UNIX sockets (stock asyncio and uvloop).",
+         "Trusted: Coq kernel, extraction, hand-written models (checked by correspondence). NOT exhibited by the model, observed by the end-to-end harness only: kernel buffering and TCP flow control, asyncio/uvloop transports (when callbacks fire, zero write-buffer limit), constructors pausing the transport, empirical back-pressure bounds.",
+         "Rocq/Coq invariant proofs over all op/callback sequences + correspondence on fake transports + real-socket monitors", "DESIGN.md §6 C18"),
+ "C20": ("Machine-checked proof (Coq) over an executable LTS model of anyio.functools.lru_cache (prims/Lru.v with embedded Lock model): for EVERY history of calls/wrapped-function completions/failures/native cancellations/ticks: value faithfulness, reuse of the first result, key independence, LRU order and least-recent eviction, expired-never-served (both forms) unconditionally; bounded retention under no_inflight_eviction; single flight and no internal error under no_inflight_eviction AND no_waited_eviction; and vm_compute REFUTATIONS without them (known findings F3, F8). Tied to the code by differential execution on a stepped loop (whole dict compared per step) + vm_compute sample + monitors; histories matching a known-finding predicate print KNOWN-FINDING, any other monitor hit is a VIOLATION.",
+         "Trusted: Coq kernel, extraction, hand-written model faithful to functools.py:137-343 (checked by correspondence). Scope limits: single flight not claimed for maxsize=0 (bypass by design); Clear only at quiescence; wrapped function suspends once; cancellation = native Task.cancel() on a blocked caller.",
+         "Rocq/Coq invariant proofs over all histories (conditional where the code violates the property, with refutation witnesses) + correspondence check", "DESIGN.md §6 C20"),
 }
 PENDING_REASON = "check under construction in this session (model + theorems + correspondence not yet registered); see DESIGN.md §6"
 
